@@ -64,9 +64,9 @@ DoPing(o, m, g) ==
 \* InitState::handle_init.  res: "err" (rejected, nothing changed, no reply), "fatal" (CryptoInitFatal: the caller
 \* destroys the object), "cont" (Continue; out may be empty), "succI" / "succR" (Success as initiator / responder)
 Handle(o, m, g) ==
-  IF ~Verifies(o, m) THEN Ret(o, <<>>, "err", None)
+  IF o.stage = "closing" THEN Ret(o, <<>>, "err", None)      \* PeerCrypto dropped its InitState: "initialization already finished"
+  ELSE IF ~Verifies(o, m) THEN Ret(o, <<>>, "err", None)
   ELSE IF m.node = o.node THEN Ret(o, <<>>, "fatal", None)                       \* connected to self
-  ELSE IF o.stage = "closing" THEN Ret(o, <<>>, "cont", None)
   ELSE IF o.stage = "fresh" THEN
          IF m.st = 1 THEN DoPing(o, m, g) ELSE Ret(o, <<>>, "fatal", None)        \* invalid stage as first message
   ELSE IF o.stage = "awaitPong" /\ m.st = 1 THEN
